@@ -1452,6 +1452,10 @@ pub fn custom_name_inputs() -> Vec<Input> {
 pub fn nocode_inputs() -> Vec<Input> {
     let wats = [
         "(module (memory 1) (data (i32.const 0) \"abc\"))",
+        // the largest 32-bit limits (65536 pages = 4 GiB), as a maximum and as both bounds
+        "(module (memory 1 65536))",
+        "(module (memory (export \"m\") 65536 65536))",
+        "(module (import \"env\" \"m\" (memory 2 65536)))",
         "(module (import \"env\" \"f\" (func)) (memory 1) (data (i32.const 8) \"x\") (export \"g\" (func 0)))",
         "(module (table 2 funcref) (global (export \"x\") i32 (i32.const 7)))",
         "(module (import \"env\" \"m\" (memory 1)) (data (i32.const 0) \"hello\") (data (i32.const 16) \"\"))",
@@ -1863,6 +1867,21 @@ pub fn parallel_inputs(seed: u64, n: u64) -> Vec<Input> {
                 }
                 tag = "two-bad-bodies";
             }
+        }
+        if k % 2 == 1 && tag == "valid" {
+            // many unknown custom sections behind the module: their order in the output is part of what must not depend on
+            // the schedule
+            for c in 0..48u32 {
+                let name = format!("pc{}", c);
+                let payload: Vec<u8> = (0..(c % 7 + 1)).map(|x| (x + c) as u8).collect();
+                let mut body = vec![name.len() as u8];
+                body.extend_from_slice(name.as_bytes());
+                body.extend_from_slice(&payload);
+                bytes.push(0);
+                bytes.push(body.len() as u8);
+                bytes.extend(body);
+            }
+            tag = "valid-customs";
         }
         out.push(Input { id: format!("par-{}-{}", k, tag), bytes, source: format!("par:{}:{}:{}", seed, k, tag) });
     }
